@@ -388,12 +388,16 @@ func (m *CiphertextMetaData) UnmarshalJSON(p []byte) (err error) {
 		return err
 	} else if y == 1 {
 		m.IsNTT = true
+	} else {
+		m.IsNTT = false
 	}
 
 	if y, err := hexconv(aux.IsMontgomery); err != nil {
 		return err
 	} else if y == 1 {
 		m.IsMontgomery = true
+	} else {
+		m.IsMontgomery = false
 	}
 
 	return
